@@ -20,6 +20,7 @@ ASSUMPTIONS = [
     "with -p the planted assignment is not observable from outside: the check asks for the number of available clauses of *one* planted assignment (which does not depend on the assignment) and for a satisfiable output",
     "cli_planted_scale: the assignment planted by -p is read where cnfgen.clihelpers.simple_helpers hands it to RandomKCNF / RandomKXOR (a pass-through wrapper around the two names bound in that module; the arguments are forwarded unchanged); '-p plants a random satisfying assignment' is read as: exactly one total assignment of the variables 1..n",
     "beyond 12 variables no truth table is built: planted assignments are evaluated clause by clause, and the number of compatible clauses / parities is counted per class of variables on which the planted assignments agree (vlib/randref, compared with the brute-force count up to 7 variables on every call)",
+    "exact boundary and wide clauses (planted_iterable, cases marked 'exact'): the maximum is computed in closed form with Python integers for at most two distinct planted assignments; requests at the maximum are generated only when the maximum is at most 4500 (thorough 20000), because the tree enumerates every clause there; beyond that only a handful of clauses is requested; k-XOR with more than 11 variables per parity is requested only with m = 0 (its encoding has 2^(k-1) clauses per parity)",
     "uniformity of the distribution is not tested",
     "formula_class is left at its default (CNF); the OPB rendering is C08's subject",
     "determinism under seed= / --seed is asserted only for equal arguments in the same process; --seed 0 is exercised for shape only (its being ignored is C07's finding 9)",
@@ -123,16 +124,18 @@ def check_formula_shape(kind, k, n, m, nvars, clauses, pbits, what):
     return parities
 
 
-def _call_library(case, extra_kwargs=None):
+def _call_library(case, extra_kwargs=None, mx=None):
     """Calls the generator with the global generator seeded from the case.
 
     Returns (status, F, labels, planted_bits, max): status is 'rejected'
     (ValueError, expected) or 'ok'; raises Violation when acceptance or
-    rejection disagrees with 'k > n or m > max'."""
+    rejection disagrees with 'k > n or m > max'.  `mx`: the maximum, when the
+    caller has computed it already (closed form)."""
     kind, k, n, m = case['kind'], case['k'], case['n'], case['m']
     planted = [list(a) for a in case.get('planted', [])]
     pbits = tuple(rr.assignment_bits(n, a) for a in planted)
-    mx = _maxfor(kind, k, n, pbits)
+    if mx is None:
+        mx = _maxfor(kind, k, n, pbits)
     expect_reject = k > n or m > mx
     fn = _fn(kind)
     kwargs = dict(extra_kwargs or {})
@@ -194,8 +197,8 @@ def _common_labels(case, pbits, mx):
     return labels
 
 
-def run_library(case):
-    status, F, labels, pbits, mx = _call_library(case)
+def run_library(case, mx=None):
+    status, F, labels, pbits, mx = _call_library(case, mx=mx)
     kind, k, n, m = case['kind'], case['k'], case['n'], case['m']
     labels = labels + _common_labels(case, pbits, mx)
     nontrivial = k >= 1 and m > 0 and k <= n
@@ -440,6 +443,207 @@ def strat_planted_iterable(draw):
     return {'kind': kind, 'k': k, 'n': n, 'm': m, 'planted': planted,
             'rseed': draw(st.integers(0, 2 ** 32 - 1)),
             'pc': draw(st.sampled_from(['iter', 'generator'])), 'ac': 'list'}
+
+
+# ---------------------------------------------------------------------------
+# the exact boundary where floating point would round, and widths where it overflows
+#
+#   {"exact": true, "kind": "cnf", "k": 11, "n": 11, "m": 2048, "planted": [], "mode": "max", "family": "boundary",
+#    "rseed": 5, "pc": "list", "ac": "list"}
+#
+# The maximum is a closed form in Python integers (math.comb, shifts): nothing is enumerated and no float is
+# involved.  For at most two distinct planted assignments a, b (inclusion-exclusion over the clauses that a or b
+# falsify; the parities on which a and b agree are those that take an even number of variables where they differ):
+#   clauses:  2^k C(n,k)  |  (2^k - 1) C(n,k)  |  (2^k - 2) C(n,k) + C(#agree, k)
+#   parities: 2 C(n,k)    |  C(n,k)            |  sum over even j of C(d,j) C(n-d,k-j),  d = #differ
+
+EXACT_CAP = {'quick': 4500, 'thorough': 20000}
+XOR_ENCODING_CAP = 30000          # clauses in the encoding of the parities
+EXACT_NS = list(range(11, 31)) + [64, 100, 1000, 1200]
+FLOAT_TOP = 1 << 1024             # beyond the range of a float
+
+
+def exact_max(kind, k, n, pbits):
+    if k > n:
+        return 0
+    distinct = sorted(set(pbits))
+    C = comb(n, k)
+    if len(distinct) > 2:
+        raise ValueError("closed form for at most two distinct planted assignments")
+    if kind == 'cnf':
+        if len(distinct) == 0:
+            return (1 << k) * C
+        if len(distinct) == 1:
+            return ((1 << k) - 1) * C
+        agree = n - bin(distinct[0] ^ distinct[1]).count('1')
+        return ((1 << k) - 2) * C + comb(agree, k)
+    if len(distinct) == 0:
+        return 2 * C
+    if len(distinct) == 1:
+        return C
+    d = bin(distinct[0] ^ distinct[1]).count('1')
+    return sum(comb(d, j) * comb(n - d, k - j) for j in range(0, min(d, k) + 1, 2))
+
+
+def run_exact(case):
+    kind, k, n, m = case['kind'], case['k'], case['n'], case['m']
+    pbits = tuple(rr.assignment_bits(n, a) for a in case.get('planted', []))
+    mx = exact_max(kind, k, n, pbits)
+    classes = len(rr.column_classes(n, pbits))
+    if n <= 30 or classes <= 2:
+        other = _maxfor(kind, k, n, pbits)          # brute force / count per class of variables
+        if other != mx:
+            raise RuntimeError("harness: closed form {} and count {} differ for {}".format(mx, other, _describe(case)))
+    out = run_library(case, mx=mx)
+    labels = [l for l in out.labels if l in ('rejected', 'dense-path', 'sparse-path', 'k=n', 'k=0')]
+    labels += ['exact', 'exact-' + kind, 'exact-planted={}'.format(len(pbits)), 'family-' + case['family']]
+    if 11 <= n <= 30:
+        labels.append('n-in-11..30')
+    if n >= 1000:
+        labels.append('n>=1000')
+    if k >= 1000:
+        labels.append('k>=1000')
+    if k >= 1024:
+        labels.append('k>=1024')
+    if mx >= FLOAT_TOP:
+        labels.append('max-beyond-float-range')
+    elif mx > (1 << 53):
+        labels.append('max-beyond-2^53')
+    if k <= n:
+        if m == mx:
+            labels.append('exact-m=max')
+            if pbits:
+                labels.append('exact-m=max-planted')
+        elif m == mx - 1:
+            labels.append('exact-m=max-1')
+        elif m == mx + 1:
+            labels.append('exact-m=max+1')
+            if out.rejected:
+                labels.append('exact-m=max+1-rejected')
+    if m == 0:
+        labels.append('exact-m=0')
+    return Outcome(labels=labels, nontrivial=k <= n and (m >= 1 or mx >= FLOAT_TOP), rejected=out.rejected)
+
+
+def run_iterable_or_exact(case):
+    if case.get('exact'):
+        return run_exact(case)
+    out = run_library(case)
+    return Outcome(labels=list(out.labels) + ['one-shot-iterable'], nontrivial=out.nontrivial, rejected=out.rejected)
+
+
+_EXACT_PAIRS = {}
+
+
+def exact_pairs(kind, cap):
+    """Every (n, k), n in EXACT_NS, k in 0..n, whose unplanted maximum can be requested: at most `cap`
+    clauses / parities (and a bounded encoding of the parities)."""
+    key = (kind, cap)
+    if key not in _EXACT_PAIRS:
+        out = []
+        for n in EXACT_NS:
+            for k in range(0, n + 1):
+                total = exact_max(kind, k, n, ())
+                if total > cap:
+                    continue
+                if kind == 'xor' and total * (1 << max(k - 1, 0)) > XOR_ENCODING_CAP:
+                    continue
+                out.append((n, k))
+        _EXACT_PAIRS[key] = out
+    return _EXACT_PAIRS[key]
+
+
+def _exact_planted(cfg, n, rng):
+    full = (1 << n) - 1
+    a = rng.getrandbits(n)
+    b = rng.getrandbits(n)
+    sets = {'none': [], 'one': [a], 'two': [a, b], 'complementary': [a, a ^ full], 'equal': [a, a],
+            'one-flip': [a, a ^ (1 << rng.randrange(n))] if n else [a, a], 'all-true': [full]}[cfg]
+    return [rr.bits_assignment(n, x) for x in sets]
+
+
+def _exact_case(kind, k, n, cfg, mode, family, seed):
+    rng = random.Random(seed)
+    planted = _exact_planted(cfg, n, rng)
+    pbits = tuple(rr.assignment_bits(n, a) for a in planted)
+    mx = exact_max(kind, k, n, pbits)
+    if isinstance(mode, int):
+        m = mode
+        mode = 'm={}'.format(m)
+    else:
+        m = {'max-1': max(0, mx - 1), 'max': mx, 'max+1': mx + 1, 'zero': 0}[mode]
+    return {'exact': True, 'kind': kind, 'k': k, 'n': n, 'm': m, 'planted': planted, 'config': cfg, 'mode': mode,
+            'family': family, 'rseed': rng.getrandbits(30), 'pc': ('list', 'tuple', 'iter')[seed % 3],
+            'ac': ('list', 'tuple')[(seed // 3) % 2]}
+
+
+# widths and sizes where 2^k, C(n,k) or their product leave the exactly representable integers (2^53) or the range
+# of a float (2^1024): only a handful of clauses is requested, the formula must simply be built
+WIDE_POINTS = [(54, 27), (54, 54), (60, 30), (64, 63), (100, 50), (200, 200), (340, 170), (500, 250), (700, 300),
+               (1000, 1000), (1024, 1000), (1024, 1023), (1024, 1024), (1030, 1025), (1100, 1024), (1200, 500),
+               (1200, 1100), (1200, 1199), (1200, 1200)]
+WIDE_XOR_POINTS = [(54, 11), (64, 8), (200, 7), (1000, 3), (1024, 2), (1200, 4), (1200, 10), (1200, 1)]
+WIDE_MS = [0, 1, 2, 5]
+
+
+def enum_exact(tier):
+    cap = EXACT_CAP[tier]
+    j = 0
+    for kind in KINDS:
+        for n, k in exact_pairs(kind, cap):
+            j += 1
+            cfgs = [('none', ['max-1', 'max', 'max+1', 'zero']), ('one', ['max', 'max+1'])]
+            if tier != 'quick':
+                cfgs += [('two', ['max-1', 'max', 'max+1']), ('complementary', ['max', 'max+1']),
+                         ('one-flip', ['max', 'max+1']), ('one', ['max-1', 'zero'])]
+            elif j % 3 == 0:
+                cfgs.append((['two', 'complementary', 'one-flip', 'equal'][(j // 3) % 4], ['max', 'max+1']))
+            for cfg, modes in cfgs:
+                for mode in modes:
+                    seed = zlib.crc32("E{}:{}:{}:{}:{}".format(kind, n, k, cfg, mode).encode())
+                    yield _exact_case(kind, k, n, cfg, mode, 'boundary', seed)
+    reps = 1 if tier == 'quick' else 4
+    for kind, points in (('cnf', WIDE_POINTS), ('xor', WIDE_XOR_POINTS)):
+        for n, k in points:
+            for cfg in ('none', 'one', 'two', 'complementary'):
+                for m in WIDE_MS:
+                    for r in range(reps):
+                        seed = zlib.crc32("W{}:{}:{}:{}:{}:{}".format(kind, n, k, cfg, m, r).encode())
+                        yield _exact_case(kind, k, n, cfg, m, 'wide', seed)
+    # wide parities cannot be encoded (2^(k-1) clauses each): only the empty request
+    for n, k in WIDE_POINTS:
+        for cfg in ('none', 'one'):
+            seed = zlib.crc32("Z{}:{}:{}".format(n, k, cfg).encode())
+            yield _exact_case('xor', k, n, cfg, 0, 'wide', seed)
+
+
+_EXACT_CFG = st.sampled_from(['none', 'none', 'one', 'two', 'complementary', 'one-flip', 'equal', 'all-true'])
+_EXACT_MODE = st.sampled_from(['max-1', 'max', 'max', 'max+1', 'zero'])
+_WIDE_M = st.sampled_from(WIDE_MS + [3])
+_SEED31 = st.integers(0, 2 ** 31 - 1)
+_INT6 = st.integers(0, 10 ** 6)
+
+
+@st.composite
+def strat_exact(draw):
+    kind = draw(st.sampled_from(KINDS))
+    seed = draw(_SEED31)
+    if draw(_INT6) % 3 == 0:
+        pairs = exact_pairs(kind, 1000)         # cheap boundary points
+        n, k = pairs[draw(_INT6) % len(pairs)]
+        return _exact_case(kind, k, n, draw(_EXACT_CFG), draw(_EXACT_MODE), 'boundary', seed)
+    if kind == 'cnf':
+        n = draw(st.sampled_from([54, 64, 100, 341, 1000, 1023, 1024, 1025, 1100, 1200]))
+        k = n - draw(_INT6) % (n // 2 + 1)
+    else:
+        n = draw(st.sampled_from([54, 64, 100, 1000, 1024, 1200]))
+        k = 1 + draw(_INT6) % (11 if n <= 64 else 8 if n <= 100 else 4)
+    return _exact_case(kind, k, n, draw(_EXACT_CFG), draw(_WIDE_M), 'wide', seed)
+
+
+def strat_iterable_or_exact():
+    it = strat_planted_iterable()
+    return st.one_of(it, it, it, it, it, it, strat_exact())
 
 
 # ---------------------------------------------------------------------------
@@ -907,8 +1111,15 @@ SUBCHECKS = [
              required_labels=['cnf', 'xor', 'string', 'formula', 'main', 'planted-observed',
                               'variable>=64-planted-true', 'system-consistent', 'boundary', 'm=max',
                               'm=max+1-rejected', 'n=64', 'n=65', 'n=90', 'n=130', 'n=200']),
-    SubCheck('planted_iterable', run_planted_iterable, strategy=strat_planted_iterable,
-             quick=600, thorough=20000, max_shards=4,
-             rule="planted_assignments passed as a one-shot iterator / generator of lists (the docstring says 'iterable(lists)'); n 1..7, k 1..4, 1..3 assignments; same oracle as grid; non-trivial: m>=1",
-             required_labels=['cnf', 'xor', 'm=max', 'm=max+1-rejected', 'planted>=2']),
+    SubCheck('planted_iterable', run_iterable_or_exact, strategy=strat_iterable_or_exact, enumerate_cases=enum_exact,
+             quick=700, thorough=23000, max_shards=4,
+             rule="(a) planted_assignments passed as a one-shot iterator / generator of lists (the docstring says 'iterable(lists)'); n 1..7, k 1..4, 1..3 assignments; same oracle as grid; non-trivial: m>=1. "
+                  "(b) the exact boundary at sizes where floating point would round: RandomKCNF and RandomKXOR for every (n, k) with n in 11..30 or n in {64, 100, 1000, 1200}, k in 0..n, whose maximum 2^k*C(n,k) (2*C(n,k) parities, encoding <= 30000 clauses) is at most 4500 (thorough 20000), without planted assignments at m = max-1, max, max+1 and 0, with one planted total assignment at max and max+1, on every third pair (thorough: every pair) with two (random, complementary, differing in one variable, equal) at max and max+1 (thorough also max-1); planted sets passed as list, tuple or one-shot iterator. "
+                  "(c) widths where 2^k, C(n,k) or their product exceed 2^53 or the range of a float: k-CNF on (n,k) from (54,27) to (1200,1200) including k = 1000, 1023, 1024, 1025, 1100, 1199 (Hypothesis: n in {54..1200}, any k in n/2..n), k-XOR on n up to 1200 with k <= 11, m in {0,1,2,5}, 0..2 planted assignments; k-XOR with wide k only at m = 0. "
+                  "oracle: the maximum is a closed form in Python integers (math.comb and shifts; two planted assignments by inclusion-exclusion), compared with the count per class of variables / brute force of vlib/randref wherever that is cheap; ValueError exactly when m > max; otherwise n variables, m pairwise distinct clauses (parities, decoded from the sign-pattern blocks) on k distinct variables of 1..n, each satisfied by every planted assignment (evaluated by the harness). non-trivial (b),(c): k<=n and m>=1, or a maximum beyond the float range",
+             required_labels=['cnf', 'xor', 'm=max', 'm=max+1-rejected', 'planted>=2', 'one-shot-iterable',
+                              'exact', 'exact-cnf', 'exact-xor', 'exact-planted=0', 'exact-planted=1', 'exact-planted=2',
+                              'family-boundary', 'family-wide', 'n-in-11..30', 'n>=1000', 'k>=1000', 'k>=1024',
+                              'max-beyond-float-range', 'max-beyond-2^53', 'exact-m=max', 'exact-m=max-planted',
+                              'exact-m=max-1', 'exact-m=max+1-rejected', 'exact-m=0', 'dense-path', 'sparse-path', 'k=n']),
 ]
